@@ -18,7 +18,7 @@ TraceInit == l = 1 /\ OInit
 TxRec(by, ins, wal, outwal, feerate, valid, final, sweep, dup, h, own, weight, inval) ==
   [by |-> by, ins |-> ins, wal |-> wal, nout |-> Len(outwal), outwal |-> outwal, feerate |-> feerate,
    ok |-> valid /\ final, valid |-> valid, final |-> final, sweep |-> sweep, dup |-> dup, bh |-> h,
-   own |-> own, weight |-> weight, inval |-> inval, onrb |-> FALSE]
+   own |-> own, weight |-> weight, inval |-> inval, onrb |-> FALSE, old |-> FALSE]
 
 TOpen == IsEvent("open") /\
   Open([kind |-> R.kind, live |-> ToSet(R.live), owner |-> R.owner, delays |-> R.delays,
@@ -29,7 +29,7 @@ TBcast == IsEvent("bcast") /\
                     R.valid, R.final, FALSE, R.dup, R.h, R.feerate, R.weight, R.inval))
 
 TCommit == IsEvent("commit") /\
-  Commit([tx |-> R.tx, owner |-> R.owner, revoked |-> R.revoked, h |-> R.h, outs |-> R.outs,
+  Commit([tx |-> R.tx, owner |-> R.owner, revoked |-> R.revoked, h |-> R.h, outs |-> R.outs, gone |-> FALSE,
           known |-> <<ToSet(R.known[1]), ToSet(R.known[2])>>])
 
 TBlock == IsEvent("block") /\ Block(R.h, ToSet(R.txs))
@@ -45,7 +45,10 @@ TBal == IsEvent("bal") /\ Balances(R.node, R.items)
 TState == IsEvent("state") /\ Checkpoint(R.h)
 TFinal == IsEvent("final") /\ Final(R)
 TBump == IsEvent("bump") /\ Bump(R.node, R.claim, R.target, ToSet(R.ops))
-TRewind == IsEvent("rewind") /\ Rewind(R.h)
+\* `unconf` (the transactions that left the chain) is implied by the heights recorded so far; the trace
+\* spec checks that the engine's chain agrees with the one rebuilt here
+TRewind == IsEvent("rewind") /\ Rewind(R.h, ToSet(R.evicted))
+                             /\ ToSet(R.unconf) = {t \in DOMAIN conf : conf[t] > R.h}
 TRebroadcast == IsEvent("rebroadcast") /\ Rebroadcast(R.node)
 TFeerate == IsEvent("feerate") /\ Feerate(R.node, R.v)
 TGaveUp == IsEvent("ldk_log") /\ GaveUp(R.node)
